@@ -15,3 +15,47 @@ QXV_DRIVER(selftest)
     }
     return 0;
 }
+
+#include "loopback.h"
+
+// loopback smoke test: real client connects to the scripted peer, empty features -> session
+QXV_DRIVER(selftest_loop)
+{
+    LoopPeer peer;
+    TestClient c(TestClient::NoExtensions, "me@example.org/r");
+    QStringList sig;
+    QObject::connect(&c, &QXmppClient::connected, [&] { sig << "connected"; });
+    QObject::connect(&c, &QXmppClient::disconnected, [&] { sig << "disconnected"; });
+    c.configuration().setHost("127.0.0.1");
+    c.configuration().setPort(peer.port());
+    c.configuration().setAutoReconnectionEnabled(false);
+    c.connectToServer(c.configuration());
+    bool ok = peer.waitConnection(1);
+    ok = ok && qxvSpin([&] { return peer.received.contains("<stream:stream"); });
+    ctx.reset("loop1");
+    ctx.emit_({ { "e", "Open" }, { "ok", ok }, { "recv", QString::fromUtf8(peer.takeReceived()) } });
+    int rc0 = c.receivedCount;
+    peer.write("<?xml version='1.0'?><stream:stream xmlns='jabber:client' xmlns:stream='http://etherx.jabber.org/streams' id='s1' from='example.org' version='1.0'><stream:features/>");
+    ok = qxvSpin([&] { return c.receivedCount > rc0; });
+    qxvDrain();
+    ctx.emit_({ { "e", "Features" }, { "ok", ok }, { "sig", jarr(sig) }, { "connected", c.isConnected() }, { "sent", jarr(c.takeSent()) } });
+    peer.cut();
+    ok = qxvSpin([&] { return !c.isConnected() && sig.contains("disconnected"); });
+    ctx.emit_({ { "e", "Cut" }, { "ok", ok }, { "sig", jarr(sig) }, { "state", int(c.state()) } });
+    // TLS
+    sig.clear();
+    c.configuration().setStreamSecurityMode(QXmppConfiguration::TLSRequired);
+    c.configuration().setIgnoreSslErrors(true);
+    c.connectToServer(c.configuration());
+    ok = peer.waitConnection(2) && qxvSpin([&] { return peer.received.contains("<stream:stream"); });
+    peer.takeReceived();
+    rc0 = c.receivedCount;
+    peer.write("<?xml version='1.0'?><stream:stream xmlns='jabber:client' xmlns:stream='http://etherx.jabber.org/streams' id='s2' from='example.org' version='1.0'><stream:features><starttls xmlns='urn:ietf:params:xml:ns:xmpp-tls'/></stream:features>");
+    ok = ok && qxvSpin([&] { return peer.received.contains("<starttls"); });
+    peer.takeReceived();
+    peer.write("<proceed xmlns='urn:ietf:params:xml:ns:xmpp-tls'/>");
+    bool tls = peer.startTls();
+    ok = qxvSpin([&] { return peer.received.contains("<stream:stream"); });
+    ctx.emit_({ { "e", "Tls" }, { "ok", ok }, { "tls", tls }, { "sent", jarr(c.sent) }, { "recvAfterTls", QString::fromUtf8(peer.takeReceived()) } });
+    return 0;
+}
